@@ -64,7 +64,7 @@ var clauseKW = map[string]bool{
 	"on_exit": true, "on_panic": true, "assume": true, "let": true, "hint": true,
 	"attr": true, "closure": true, "panics_only_if": true, "never_panics": true, "reach": true,
 	"ghost": true, "callee_may_panic": true, "opaque_effects": true, "never_errors": true,
-	"before": true,
+	"before": true, "toplevel": true,
 }
 var topKW = map[string]bool{"func": true, "pred": true, "package": true, "axiom": true, "lemma": true, "functype": true, "writers": true}
 
@@ -238,7 +238,7 @@ func (db *DB) loadFile(path string) error {
 			}
 			c := &Clause{Kind: kw, Text: rest, File: path, Line: it.line}
 			switch kw {
-			case "inline", "safety", "noreturn", "trusted", "pure", "never_panics", "callee_may_panic", "opaque_effects", "never_errors":
+			case "inline", "safety", "noreturn", "trusted", "pure", "never_panics", "callee_may_panic", "opaque_effects", "never_errors", "toplevel":
 				cur.Flags[kw] = true
 				if kw == "trusted" {
 					db.Assume = append(db.Assume, cur.Name+": trusted contract")
